@@ -354,3 +354,9 @@ def run(ctx):
         ctx.ob("C18.EQ", c, "zone resolves an explicit __reduce__ (pickle/copy go through the constructor arguments or object state)",
                red is not None, construct="__reduce__ of %s" % c.name)
     ctx.floor("C18.EQ", n_eq, 5, "zone classes with __eq__")
+
+    # ---------------------------------------------------------------- C18.ARGS
+    from ..rules_common import check_call_arguments
+    check_call_arguments(ctx, "C18.ARGS", "C18")
+
+
